@@ -429,7 +429,8 @@ namespace Pistache
         if (family == AF_INET6)
         {
             const std::string& raw_host = parser.rawHost();
-            assert(raw_host.size() > 2);
+            if (raw_host.size() <= 2)
+                throw std::invalid_argument("Invalid IPv6 network address");
             const std::string& host = addr.substr(1, raw_host.size() - 2);
 
             ip_ = GetIPv6(host);
